@@ -83,6 +83,8 @@ inductive Out where
   | fileError           -- CorruptReferenceError{StatusFileError}
   | notEnabled          -- ErrFilestoreNotEnabled / ErrUrlstoreNotEnabled
   | error               -- any other error (datastore, unmarshal, Sum)
+  | bool (b : Bool)     -- Has
+  | size (n : Nat)      -- GetSize
 deriving Repr, DecidableEq
 
 structure World where
@@ -196,5 +198,48 @@ def filestoreGet (w : World) (c : Cid) : Out :=
   | .notFound => fmGet w c
   | .error => .error
   | .block data => .ok data
+
+/-! ### the unverified queries (documented as such in the Go code) -/
+
+/-- `FileManager.Has`: "does not validate the data, nor checks if the reference is valid" -/
+def fmHas (w : World) (c : Cid) : Out :=
+  match w.refs c.mh with
+  | .absent => .bool false
+  | .dsError => .error
+  | _ => .bool true
+
+/-- `FileManager.GetSize`: the size recorded in the reference, without looking at the file -/
+def fmGetSize (w : World) (c : Cid) : Out :=
+  match w.refs c.mh with
+  | .absent => .notFound
+  | .dsError => .error
+  | .garbage => .error
+  | .ref d => .size d.size
+
+/-- `Filestore.Has` -/
+def filestoreHas (w : World) (c : Cid) : Out :=
+  match w.inner c.mh with
+  | .error => .error
+  | .block _ => .bool true
+  | .notFound => fmHas w c
+
+/-- `Filestore.GetSize` -/
+def filestoreGetSize (w : World) (c : Cid) : Out :=
+  match w.inner c.mh with
+  | .error => .error
+  | .block d => .size d.length
+  | .notFound => fmGetSize w c
+
+/-- where `Filestore.Put` sends a block: nowhere when `Has` says it is there (or fails), the
+FileManager for a `*posinfo.FilestoreNode`, the main blockstore otherwise -/
+inductive PutTarget where
+  | skip | failed | fileManager | blockstore
+deriving Repr, DecidableEq
+
+def filestorePutTarget (w : World) (c : Cid) (isFilestoreNode : Bool) : PutTarget :=
+  match filestoreHas w c with
+  | .bool true => .skip
+  | .bool false => if isFilestoreNode then .fileManager else .blockstore
+  | _ => .failed
 
 end C03
